@@ -34,6 +34,7 @@
 //	               classes: valid | invalid | empty | raw (wrong type / broken literal) | unparsable (URI-like options that
 //	               pint does not validate) | templated-safe | templated-raw | templated-datadep | templated-invalid
 //	cfg.HasProm / HasDiscovery / HasLink / HasTemplated / HasRegexOpt / CheckKinds   coarse facts about the text
+//	cfg.FocusedValues   derived rule/label / alerts/annotation checks: values list of boundary size, target value on / off the list
 //	cfg.Focused / cfg.SinglePerturbed   what the focused-sub-block and single-perturbation modes did
 //	               (Opts.Targets = pintcfg.Targets(fileName, doc), Opts.Command, Opts.State, Opts.SingleInvalid)
 //	cfg.Excluded   how many draws were diverted by an exclusion switch (Opts.NoRawSubst, NoBadFailover, NoBadLinkRewrite, NoEmptyRangeMax)
